@@ -36,6 +36,11 @@ META = {
         note="Trusted: Lean kernel; engine model tied by correspondence; fact extractor; verif hook exposing processLTXStreamFrame. Mid-call demotion windows (between a gate check and the rename) are stated, not exhibited.",
         technique="Lean 4 frame/refusal theorems over the engine model + regenerated gate table + differential attack suite on a real replica",
     ),
+    "C13": dict(
+        text="Lean 4 proofs that while the halt lock (LiteFS's internal write-lock set over the generated RWMutex code) is held no local owner holds or obtains any lock of the plan, that the forwarding endpoint proceeds only for the id of the lock currently granted (validation order regenerated from the source), that a holder whose lock is no longer honoured publishes nothing in either journal mode, that applying a forwarded file leaves the primary at the holder's new (TXID, checksum), and that acquire is idempotent per id; a byte-level cluster model with halt locks and forwarding is compared with real 2-3 node clusters driving real /halt, /tx and release between stores, with writers on the primary, repeated acquire/release, publishing without or after a lock, expiry and primary change during a halt; Lean spec predicates judge the implementation's observations.",
+        note="Trusted: Lean kernel; cluster model tied by correspondence; scripted lease service. Three genuine defects were found and repaired in /repo (/tx holder check 1c94e69, halt grants on non-primaries 7ead51d, self-deadlock of the stream path on a stale remote halt lock ce31c5d). Partial: races inside one /tx request and lost responses are not modelled.",
+        technique="Lean 4 theorems (lock-table exclusion, endpoint validation, engine commit under a stale lock, apply position) + differential halt suite on real clusters",
+    ),
     "C15": dict(
         text="Lean 4 proofs that Drop advances the position by exactly one with the empty checksum and removes database/journal/WAL, that its tombstone extends the chain, that a re-created database continues the TXID sequence with the empty pre-checksum, and that applying a tombstone to any image yields the empty image; histories with drop/re-creation on a real primary and tombstones streamed to a real replica are compared with the model and checked against the spec.",
         note="Trusted: Lean kernel; engine model tied by correspondence; directory listing through FUSE not exercised (no mount).",
